@@ -12,11 +12,11 @@ from .c12 import sig, compact
 
 I = z3.Int
 BOUNDS = {"quick": [dict(what="saver", K=3, pre=2, to=1), dict(what="joiner", K=3, pre=1, to=1), dict(what="joiner", K=3, pre=1, to=1, sil0=True),
-                    dict(what="regions", K=3, pre=1, to=1), dict(what="saver-late", K=2, pre=1, to=1)],
+                    dict(what="regions", K=3, pre=1, to=1), dict(what="saver-late", K=2, pre=1, to=1), dict(what="saver-overlap", K=3, pre=1, to=1)],
           "thorough": [dict(what="saver", K=4, pre=2, to=1), dict(what="saver", K=3, pre=3, to=1), dict(what="joiner", K=5, pre=2, to=1),
                        dict(what="joiner", K=4, pre=2, to=1, sil0=True), dict(what="regions", K=5, pre=2, to=1), dict(what="saver+joiner", K=2, pre=2, to=1),
-                       dict(what="saver-late", K=3, pre=2, to=1)]}
-TEMPLATE = "det_{id}_{start:.3f}_{end:.3f}_{duration:.2f}.wav"
+                       dict(what="saver-late", K=3, pre=2, to=1), dict(what="saver-overlap", K=4, pre=2, to=1)]}
+TEMPLATE = "det_{id}_{start:.3f}_{end}_{duration:.4f}.wav"      # `{end}` bare: the float as it is (0.30000000000000004)
 SIL_Q = 4   # silence duration in quarter samples
 
 
@@ -24,7 +24,10 @@ def run_once(mods, e, s, what, K, data, val, cache_bytes, sil_q, fs, skw=None):
     skw = skw or thr.SPLIT_KW
     """drives the real workers; returns a dict of observations (all concrete on the path)"""
     W, core, util = mods["workers"], mods["core"], mods["util"]
-    reader = util.AudioReader(data, block_dur=0.1, sr=thr.SR, sw=thr.SW, ch=thr.CH)
+    if "overlap" in what:
+        reader = util.AudioReader(data, block_dur=0.2, hop_dur=0.1, sr=thr.SR, sw=thr.SW, ch=thr.CH)
+    else:
+        reader = util.AudioReader(data, block_dur=0.1, sr=thr.SR, sw=thr.SW, ch=thr.CH)
     seen_blocks = []
     orig_read = reader.read
 
@@ -113,7 +116,7 @@ def judge(what, obs, fs, regs, joined, sil_bytes):
         if len(names) != len(regs):
             fails.append("%d detection files for %d detections: %s" % (len(names), len(regs), names))
         for i, (a, b, d) in enumerate(regs, 1):
-            nm = TEMPLATE.format(id=i, start=a / thr.SR, end=b / thr.SR, duration=(b - a) / thr.SR)
+            nm = TEMPLATE.format(id=i, start=a * 0.1, end=a * 0.1 + (b - a) / thr.SR, duration=(b - a) / thr.SR)
             f = file_bytes(fs, nm)
             if f is None:
                 fails.append("no file named %s among %s" % (nm, names))
@@ -234,6 +237,7 @@ def replay(c):
 
 
 def run(rep):
+    tok.VALIDATE[0] = replay_fn
     L = thr.load()
     rep.hashes = L.hashes
     cfgs = BOUNDS[rep.tier]
